@@ -10,6 +10,7 @@ Plus: a writer stores each of its state fields on every normal path
 Not decided: numeric equality of recomputed values with a fresh object's.
 """
 import ast
+import re
 
 from mmsa import classfx
 from mmsa.cfg import no_exc
@@ -321,6 +322,47 @@ def r4_reads_do_not_mutate(repo, rep, class_q):
   rep.extra['in_place_sites_examined'] = n_sites
 
 
+def r5_inputs_copied(repo, rep, class_q):
+  """The series setters store a private copy (np.array(value)), not the caller's buffer: eagerly derived fields (means)
+  and lazily derived ones (fit, variance) must see the same data even if the caller later modifies its array."""
+  from mmsa.types import FuncCtx
+  cls = repo.cls(class_q)
+  n = 0
+  for name, f in cls.setters.items():
+    ctx = FuncCtx.of(f)
+    val = f.params[1]
+    for node in ctx.g.nodes:
+      if node.kind == 'stmt' and isinstance(node.ast, ast.Assign) and any(classfx.self_attr(t, f.params[0]) for t in node.ast.targets):
+        fld = [classfx.self_attr(t, f.params[0]) for t in node.ast.targets][0]
+        if fld in cls.setters or classfx.is_none(node.ast.value):
+          continue
+        rhs = node.ast.value
+        cands = [(node, rhs)]
+        if isinstance(rhs, ast.Name):
+          cands = [(d.node, d.value) for d in ctx.rd.defs_at(node, rhs.id) if d.how == 'assign' and d.value is not None and not classfx.is_none(d.value)]
+        for dn, dv in cands:
+          e = ctx.rd.expand(dn, dv, keep=(val,))[0]
+          # only stores of the series itself (array-valued), not of scalars derived from it
+          if not any(isinstance(x, ast.Name) and x.id == val for x in ast.walk(e)):
+            continue
+          if isinstance(e, ast.Call) and isinstance(e.func, ast.Attribute) and e.func.attr in ('mean', 'sum', 'std', 'var', 'max', 'min'):
+            continue
+          n += 1
+          t = norm(e)
+          copies = (re.fullmatch(r'(np|numpy)\.array\(%s(, dtype=[\w.]+)?\)' % val, t) is not None) or t.endswith('.copy()') or t.startswith('copy.')
+          rep.check(copies, 'R5/inputs-copied', '%s setter stores a private copy in %s' % (name, fld), f.qualname, 'self.%s = %s' % (fld, t[:80]),
+                    'the %s setter stores `%s`: the object keeps the caller\'s array (no copy), so a later in-place change by the caller alters lazily computed results while eagerly computed ones (means) stay'
+                    % (name, t[:60]), f.loc(node.ast))
+        continue
+        t = ''
+        copies = (re.fullmatch(r'(np|numpy)\.array\(%s(, dtype=[\w.]+)?\)' % val, t) is not None) or t.endswith('.copy()') or t.startswith('copy.')
+        rep.check(copies, 'R5/inputs-copied', '%s setter stores a private copy in %s' % (name, fld), f.qualname, 'self.%s = %s' % (fld, t[:80]),
+                  'the %s setter stores `%s`: the object keeps the caller\'s array (no copy), so a later in-place change by the caller alters lazily computed results while eagerly computed ones (means) stay'
+                  % (name, t[:60]), f.loc(node.ast))
+  rep.floor('series stores in setters', n, 2)
+
+
 def run(repo, rep, tier):
   analyse_class(repo, rep, CLASS, floors={'memo': 7, 'writers': 2, 'pairs': 14, 'cached': 2})
   r4_reads_do_not_mutate(repo, rep, CLASS)
+  r5_inputs_copied(repo, rep, CLASS)
